@@ -32,6 +32,10 @@ def run(F, rep):
     # "compressing the one-k-mer-per-node graph gives the same partition as compressing the k-mer table directly": the entry points of the
     # k-mer route, including the one that finds the extensions itself
     rep.run(dt_compress.entry_points_table, F, rep, "C09.8")
+    # ... and the k-mer route itself: its step function and the step + growth + builder chain (a table route that joins across a
+    # palindrome or a branch gives a partition the graph route does not give — wave 10, C09-m18)
+    rep.run(dt_tables.hash_step_table, F, rep, "C09.8")
+    rep.run(dt_compress.kmer_chain_table, F, rep, "C09.8")
     # every node sequence is stored through PackedDnaStringSet::add (and whatever DnaString operation it appends with)
     rep.run(dt_strings.packed_set_add, F, rep, "C09.9")
     rep.run(lemmas.dnastring_lemmas, F, rep, which={"push", "extend"})
